@@ -245,8 +245,8 @@ def autolinkRegexps : List Check := [
     [("!=", 1), ("!=", 64), ("==", 0)]
     "GM.Inl.findEmailIndex (Model/InlinesParsers.lean:478-485)",
   litsAre "util" "FindURLIndex"
-    [("!=", 1), ("!=", 4), ("!=", 58), ("==", 1), ("==", 7), (">", 0), (">", 33)]
-    "GM.Inl.findURLIndex (Model/InlinesParsers.lean:488-497: scheme length `i == 1 || i > 33`, table bits 1/4/7)",
+    [("!=", 1), ("!=", 4), ("!=", 58), ("==", 1), ("==", 7), (">", 0), (">", 32)]
+    "GM.Inl.findURLIndex (Model/InlinesParsers.lean:488-497: scheme length `i == 1 || i > 32`, table bits 1/4/7)",
   litsAre "parser" "autoLinkParser.Parse"
     [("!=", 62), ("<", 0), ("<", 0), ("slice-lo", 1), ("slice-lo", 1)]
     "GM.Inl.parseAutoLink (Model/InlinesParsers.lean:499-515)"
@@ -365,7 +365,7 @@ def limits : List Check := [
     "GM.LinkRef.defHead (Model/LinkRef.lean:57, `width > 3`)",
   litCount "extension" "isTableDelim" ">" 3 1
     "GM.Table.isTableDelim (Model/Table.lean:58)",
-  litCount "util" "FindURLIndex" ">" 33 1
+  litCount "util" "FindURLIndex" ">" 32 1
     "GM.Inl.findURLIndex (Model/InlinesParsers.lean:494): scheme of 2..32 bytes",
   litCount "util" "ResolveNumericReferences" "<" 8 1
     "GM.tryNumRef (Model/Util.lean:87): at most 7 decimal digits",
